@@ -93,6 +93,14 @@ def execute(item):
             blocked(ap if ap.outcome != "ok" else gt)
             return r
         Vap, Vg = ground(ap), ground(gt)
+        # a phase configured at rule level is the phase the rule runs in (the ground set reads the phase off the rule objects, so
+        # that reading is checked against the configuration first)
+        for rid, entry in ((base_cfg or {}).get("rule", {}) or {}).items():
+            if isinstance(entry, dict) and "phase" in entry and rid not in ("global", "group"):
+                for rule in ap.rl.rules:
+                    if rule.unique_id == rid and rule.phase != entry["phase"]:
+                        r.violations.append({"key": ("configured_phase_not_in_force", f"phase={entry['phase']}"), "detail": {"rule": rid, "configured": entry["phase"], "rule_runs_in": rule.phase}, "item": strip})
+                        return r
         # a skipped phase contributes nothing, not even with -ap
         for v in Vap:
             if v[3] in skip:
@@ -111,6 +119,18 @@ def execute(item):
         exp_last = pstar if err_phases else max([p for p in range(1, 8) if p not in skip] or [0])
         if last != exp_last:
             r.violations.append({"key": ("reported_stop_phase_wrong", f"{last}!={exp_last}"), "detail": {"skip": skip}, "item": strip})
+        if item.get("with_fix_run"):
+            # a --fix run that fixes nothing (every reporting rule is a warning, or nothing is fixable) reports what the plain gated
+            # check of the same text reports: same violations, same multiplicity, same stop phase
+            fx = drivers.d_pipe(it, [])
+            r.transitions += fx.transitions
+            if fx.outcome == "ok" and fx.rl is not None and fx.effective == 0 and not fx.written:
+                Vf = ground(fx)
+                if Vf != Vg or fx.rl.lastPhaseRan != last:
+                    extra = [v for v in Vf if Vf.count(v) > Vg.count(v)][:2]
+                    missing = [v for v in Vg if Vg.count(v) > Vf.count(v)][:2]
+                    r.violations.append({"key": ("report_of_fix_run_that_fixed_nothing_differs_from_gated_check", "extra" if extra else "missing" if missing else "stop_phase"),
+                                         "detail": {"extra": extra, "missing": missing, "stop_phase_fix_run": fx.rl.lastPhaseRan, "stop_phase_check": last}, "item": strip})
         r.states.add(base.h64((pstar, tuple(skip))))
         r.nontrivial = item["id"] if Vap else None
         if Vap and len(err_phases) > 1:
@@ -201,7 +221,12 @@ def items(tier):
                 out.append(dict(universe.mk(s, (), None, {"rule": {rid: dict(en, phase=p)}}, kind="gate"), id=f"{s}#gate#{rid}.phase={p}"))
                 if tier != "quick" or p == 7:
                     out.append(dict(universe.mk(s, (), None, {"rule": {rid: dict(en, phase=p)}}, kind="fixphase"), id=f"{s}#fixphase#{rid}.phase={p}", Ns=[min(p, inv[rid]["phase"]), max(p, inv[rid]["phase"]) - 1 or 1]))
-        out.append(dict(universe.mk(s, (), None, {"rule": {rid: dict(en, severity="Warning")}}, kind="gate"), id=f"{s}#gate#{rid}.severity=Warning"))
+        out.append(dict(universe.mk(s, (), None, {"rule": {rid: dict(en, severity="Warning")}}, kind="gate"), id=f"{s}#gate#{rid}.severity=Warning", with_fix_run=True))
+    # every rule demoted to a warning: --fix repairs nothing, its report is the gated report; and the plain configuration on every seed
+    # (a --fix run that happens to change nothing)
+    for s in seeds:
+        out.append(dict(universe.mk(s, (), None, {"rule": {"global": {"severity": "Warning"}}}, kind="gate"), id=f"{s}#gate#global.severity=Warning", with_fix_run=True))
+        out.append(dict(universe.mk(s, (), None, None, kind="gate"), id=f"{s}#gate#with_fix_run", with_fix_run=True))
     return out
 
 
@@ -214,7 +239,7 @@ def main(tier):
         "reference model: report = {v in all-phases report : phase(v) <= first non-skipped phase with an error-type violation}; --fix_phase N = the first N phase steps of the full fix. "
         "gate items run the real apply_rules with and without -ap and compare with the model (also the announced stop phase); fixphase items run the full --fix with the text recorded at every "
         "phase boundary and --fix_phase N for each N: no rule of a later or skipped phase may be applied and the text must equal the boundary text; skip sets: all of size <= 2 on every seed, "
-        "all 128 on the 12 smallest; phase re-assignment and severity flips of each fixture's own rule; non-trivial = inputs with violations / effective fixes",
+        "all 128 on the 12 smallest; phase re-assignment and severity flips of each fixture's own rule; a --fix run that changes nothing (all rules warnings, or nothing fixable) must report exactly what the gated check reports; non-trivial = inputs with violations / effective fixes",
         ["ground truth = rule.violations of the rule objects the run used (phase and severity read after configuration)"],
         extra_cov={"bound": ("S_q (<=25 lines)" if tier == "quick" else "all fix/cls seeds") + " x K0; N in 1..7; skip sets as stated"},
         reproduce=reproduce,
